@@ -64,7 +64,10 @@ func equalValue(x, y reflect.Value) bool {
 			if x.Len() != y.Len() {
 				return false
 			}
-			if x.UnsafePointer() == y.UnsafePointer() {
+			// Identical slices are equal. The types must match too: slices of different
+			// zero-size element types (say [][1][0]string and [][0]int) share one data pointer
+			// but denote different JSON values ([[[]]] and [[]]).
+			if x.Type() == y.Type() && x.UnsafePointer() == y.UnsafePointer() {
 				return true
 			}
 			// Special case for []byte, which is common.
